@@ -400,10 +400,20 @@ func (s *Serializer) blocks(bs []*Block, col int) []sline {
 		case BQuote:
 			marker := []string{"> ", ">", " > ", "   > "}[s.C.Dev(4)]
 			inner := s.blocks(b.Kids, col+len(marker))
-			for _, l := range inner {
+			// One line of the quote may spell its marker with a different number of
+			// leading spaces than the others (0-3 are allowed on every line
+			// independently; the content column of the quote moves with the marker).
+			altLine := -1
+			if len(inner) > 1 {
+				altLine = s.C.Dev(1+len(inner)) - 1
+			}
+			for li, l := range inner {
 				m := marker
-				if m == ">" && (strings.HasPrefix(l.pre+l.text, " ") || strings.HasPrefix(l.pre+l.text, "\t")) {
-					m = "> " // the marker may only swallow its own optional space (a tab would be split)
+				if li == altLine {
+					m = map[string]string{"> ": " > ", ">": "  >", " > ": "> ", "   > ": " > "}[marker]
+				}
+				if strings.HasSuffix(m, ">") && (strings.HasPrefix(l.pre+l.text, " ") || strings.HasPrefix(l.pre+l.text, "\t")) {
+					m += " " // the marker may only swallow its own optional space (a tab would be split)
 				}
 				l.pre = m + l.pre
 				out = append(out, l)
